@@ -36,16 +36,17 @@ fn drive<I: Interface>(rx: &mut I, remaining: &dyn Fn() -> usize, reset: &dyn Fn
     let count_at = obs.len(); obs.push(0);
     let base = live();
     let mut entries = 0u64;
+    let budget = remaining() as u64 + 8;
     loop {
         let was_empty = remaining() == 0;
         reset(); reset_peak();
         let r = catch_unwind(AssertUnwindSafe(|| rx.try_get_packet()));
         let pk = (peak() - base).max(0) as u64;
         let start = obs.len(); obs.push(0);
-        let mut bad = false;
+        let mut bad = false; let mut none = false;
         match r {
             Ok(Ok(p)) => { obs.push(0); show_packet(&p, obs); }
-            Ok(Err(InterfaceError::NoPacketReceived)) => obs.push(2),
+            Ok(Err(InterfaceError::NoPacketReceived)) => { none = true; obs.push(2) }
             Ok(Err(e)) => { obs.push(1); obs.push(ierr_code(&e)); }
             Err(payload) => { bad = true; obs.push(if payload.is::<Hang>() { 4 } else { 3 }); }
         }
@@ -54,7 +55,8 @@ fn drive<I: Interface>(rx: &mut I, remaining: &dyn Fn() -> usize, reset: &dyn Fn
         obs.push(pk);
         obs[start] = (obs.len() - start - 1) as u64;
         entries += 1;
-        if bad || was_empty { break; }
+        // the device is dry: stop at the first poll that reports 'nothing received' (a receiver may still hold complete packets)
+        if bad || (was_empty && none) || entries > budget { break; }
     }
     obs[count_at] = entries;
 }
@@ -197,6 +199,21 @@ pub fn gen_rcv(r: &mut Rng, thorough: bool, cx: &mut Ctx) {
             emit_rcv(cx, link, &meta, &toks);
         }
     }
+    // device read faults in the middle of link frames (outside C06's 'whole link frames'; C19 must still hold): meta is empty
+    for link in 1..3u64 {
+        for _ in 0..(if thorough { 3000 } else { 150 }) {
+            let mut toks = vec![];
+            for _ in 0..r.range(2, 12) {
+                let n = r.range(1, 255); let cut = r.below(n + 1);
+                toks.push(0); toks.push(n);
+                for _ in 0..cut { toks.push(r.range(1, 255)); }
+                toks.push(257);                                                   // hard read error / io error
+                if r.chance(1, 3) { let pn = r.below(30) as usize; let p = gen_packet(r, pn); packet_tokens(link, &p, &mut toks); }
+            }
+            let p = gen_packet(r, 20); packet_tokens(link, &p, &mut toks);
+            emit_rcv(cx, link, &[], &toks);
+        }
+    }
     // the witnesses of the repaired defects F5 / F6 / F1 / F2, as scripts
     {
         let p1 = Packet { is_error: false, device_address: 7, data: vec![1, 2, 3] }; let p2 = Packet { is_error: true, device_address: 9, data: (0..20).collect() };
@@ -254,11 +271,12 @@ pub fn exec_lnk(case: &[u64]) -> L {
 pub fn gen_lnk(r: &mut Rng, thorough: bool, cx: &mut Ctx) {
     for link in 0..3u64 {
         for k in 0..(if thorough { 12000 } else { 700 }) {
-            let np = r.range(1, 8);
-            let gaps: Vec<u64> = match k % 6 { 0 => vec![], 1 => vec![1], 2 => vec![0, 0, 2], 3 => (0..r.range(1, 7)).map(|_| r.below(3)).collect(), 4 => vec![0, 0, 0, 0, 0, 0, 0, 5], _ => (0..r.range(1, 12)).map(|_| if r.chance(1, 4) { r.range(1, 4) } else { 0 }).collect() };
+            let long = k % 12 == 4;                        // very long idle periods (hundreds of polls) between bytes / frames of small packets
+            let np = if long { r.range(1, 3) } else { r.range(1, 8) };
+            let gaps: Vec<u64> = if long { if link == 1 { let mut g = vec![0u64; 23]; g[11] = 260; g } else { vec![0, 0, 260] } } else { match k % 6 { 0 => vec![], 1 => vec![1], 2 => vec![0, 0, 2], 3 => (0..r.range(1, 7)).map(|_| r.below(3)).collect(), 4 => vec![0, 0, 0, 0, 0, 0, 0, 5], _ => (0..r.range(1, 12)).map(|_| if r.chance(1, 4) { r.range(1, 4) } else { 0 }).collect() } };
             let mut l = vec![link, gaps.len() as u64]; l.extend(&gaps); l.push(np);
             for _ in 0..np {
-                let n = match r.below(8) { 0 => r.below(9) as usize, 1 => 8, 2 => 9, 3 => r.range(14, 15) as usize, 4 => r.range(200, 400) as usize, _ => r.range(0, 64) as usize };
+                let n = if long { r.range(0, 40) as usize } else { match r.below(8) { 0 => r.below(9) as usize, 1 => 8, 2 => 9, 3 => r.range(14, 15) as usize, 4 => r.range(200, 400) as usize, _ => r.range(0, 64) as usize } };
                 let p = gen_packet(r, n); show_packet(&p, &mut l);
             }
             cx.emit(&l);
